@@ -140,16 +140,24 @@ fn concurrent(s: &Scenario) -> String {
     }
     let parked = timer.state.lock().unwrap().0;
     let mut r2 = Vec::new();
-    // watchdog: an operation of thread 2 that does not return while thread 1 is parked is a C16 violation
+    // Thread 2's operations run while thread 1 is parked.  If one of them does not return within 300 ms it is
+    // (legitimately) waiting for a lock thread 1 holds: thread 1 is released and the operation is given 3 more
+    // seconds; only an operation that still does not return is BLOCKED (C16).
+    let mut released = false;
     for op in &s.t2 {
         let st2 = store.clone();
         let op2 = op.clone();
         let h2 = std::thread::spawn(move || run_op(&st2, &op2));
         let mut n = 0;
-        while !h2.is_finished() && n < 1000 { std::thread::sleep(std::time::Duration::from_millis(2)); n += 1; }
+        while !h2.is_finished() && n < 150 { std::thread::sleep(std::time::Duration::from_millis(2)); n += 1; }
+        if !h2.is_finished() && !released {
+            let mut st = timer.state.lock().unwrap(); st.1 = true; timer.cv.notify_all(); released = true;
+        }
+        let mut n = 0;
+        while !h2.is_finished() && n < 1500 { std::thread::sleep(std::time::Duration::from_millis(2)); n += 1; }
         if h2.is_finished() { r2.push(h2.join().unwrap()); } else { r2.push("BLOCKED".to_string()); }
     }
-    { let mut st = timer.state.lock().unwrap(); st.1 = true; timer.cv.notify_all(); }
+    if !released { let mut st = timer.state.lock().unwrap(); st.1 = true; timer.cv.notify_all(); }
     let r1 = h.join().unwrap();
     let fin: Vec<String> = s.fin.iter().map(|op| run_op(&store, op)).collect();
     format!("t1={} t2={} final={}{}", r1, r2.join(","), fin.join(","), if parked { "" } else { " (park point not reached)" })
